@@ -104,6 +104,17 @@ def coq_spec_check(pid, cases):
     return viols, {"coq_spec_cases": len(sel)}
 
 FLOAT_TIE = {"C01": 120, "C07": 240, "C14": 90, "C15": 90, "C16": 300, "C17": 150, "C02": 90, "C05": 60, "C12": 90}
+SPECIAL_F64 = [0.0, -0.0, 0.0, -0.0, 1.0, -1.0, 1.0, 5e-324, -5e-324, 2.2250738585072014e-308, 1.5, 1.5, -1.5, 1e150, -1e150, 0.25, 1e-17, -1e-17, 3.0, 2.0]
+def special_stream(rng, n):
+    import struct
+    xs = []
+    while len(xs) < n:
+        v = rng.choice(SPECIAL_F64)
+        xs.append(v)
+        if rng.chance(0.35):
+            xs.append(-v if v == 0.0 else v)
+    return ["x%016x" % struct.unpack("<Q", struct.pack("<d", v))[0] for v in xs[:n]]
+
 def float_tie(pid):
     """model@float (Coq primitive binary64) against the implementation at f64 (release build), bit for bit, on fresh cases"""
     count = FLOAT_TIE.get(pid, 0) * (1 if _SEED[1] == "quick" else 4)
@@ -135,6 +146,10 @@ def float_tie(pid):
                 off = F(2) ** int(kind[3:]) + 1
                 xs = [x + off for x in xs]
             reg = reg + "/" + kind
+        if i % 5 == 4 and not pos:
+            # special values as raw bit patterns: signed zeros in both orders, exact repeats, subnormals, tiny and large magnitudes
+            xs = special_stream(rng, len(xs))
+            reg = "f64-special-values"
         ops = []
         for x in xs:
             ops.append(("u", 0, x))
@@ -311,7 +326,7 @@ def finish(pid, tag, cases, oracle_viols, rule, extra=None):
     cov.update(st)
     # evaluations = every execution of the implementation in this run; the exact-scalar cases (the ones also run through the model) are counted separately
     mult = {"f64_cases": 1, "long_f64_runs": 1, "fading_pairs": 2, "f64_vs_exact_runs": 2, "f32_runs": 2, "float_cases_bit_exact": 1, "f64_pow2_pairs": 2,
-            "f64_chain_groups": 3, "heap_measurements": 1, "f64_schedules": 1, "coq_spec_cases": 0, "float_long_cases_hashed": 1, "dense_f64_vs_exact_runs": 3, "float_spec_long_cases": 1}
+            "f64_chain_groups": 3, "heap_measurements": 1, "f64_schedules": 1, "coq_spec_cases": 0, "float_long_cases_hashed": 1, "dense_f64_vs_exact_runs": 3, "float_spec_long_cases": 1, "long_prefix_pairs": 2}
     cov["evaluations_exact_scalar_with_model"] = cov["evaluations"]
     cov["evaluations"] = cov["evaluations"] + sum(mult[k_] * int(cov.get(k_, 0)) for k_ in mult if isinstance(cov.get(k_, 0), int))
     return {"coverage": cov, "violations": viols}
@@ -340,6 +355,28 @@ def run(pid, tier, seed):
                 break
         else:
             res["coverage"]["failing_input_search"] = {"found": False, "note": "thorough-size search with two further seeds accepted everything"}
+    # source basis: the files this property is anchored in differ from the tree the model was last validated against.  Not an alarm in
+    # itself (the correspondence above is the tie); but when the first pass found nothing, look again with two further seeds.
+    try:
+        from . import basis
+        ch = basis.changed()
+        rel = basis.relevant(pid, ch) if ch else []
+    except Exception:
+        ch, rel = None, []
+    res["coverage"]["source_basis"] = {"changed_files": ch, "anchored_in_changed": rel}
+    unknown = [v for v in res["violations"] if v[0] not in known]
+    if rel and not unknown and tier == "quick" and not os.environ.get("VERIF_NO_SEARCH"):
+        extra_runs = 0
+        for extra in (1, 2):
+            _SEED[0], _SEED[1] = seed + 7 * extra, "quick"
+            r2 = globals()["run_" + pid](Rng((seed + 7 * extra) * 1000 + int(pid[1:])), "quick")
+            extra_runs += 1
+            found = [v for v in r2["violations"] if v[0] not in known]
+            if found:
+                res["violations"] = res["violations"] + found
+                break
+        res["coverage"]["source_basis"]["extra_seeds_run"] = extra_runs
+        _SEED[0], _SEED[1] = seed, tier
     return res
 
 def known_keys(pid):
@@ -377,10 +414,10 @@ def replay(pid, path):
     for mode, cs in by_mode.items():
         run_impl(cs, mode=mode if mode in ("ex", "f64", "f32") else "ex", profile="release" if mode != "ex" else "debug")
     same = all(x.get("impl") is None or [b.js() for b in c.obs][:len(x["impl"])] == x["impl"][:len(c.obs)] for c, x in zip(cases, recorded))
-    viols = O.spec_check(pid, [c for c in cases if (c.meta or {}).get("mode", "ex") == "ex"], "the batch specification")
+    viols = O.spec_check(pid, [c for c in cases if (c.meta or {}).get("mode", "ex") == "ex" and all(o[0] != "q" for o in c.ops)], "the batch specification")
     if same and not viols:
         viols = [(j.get("key", "replay"), "reproduced: the implementation still answers exactly what the replay recorded (%s)" % j.get("message", "")[:300], {"kind": "replay", "cases": recorded[:2]})]
-    ex_cases = [c for c in cases if (c.meta or {}).get("mode", "ex") == "ex" and len(c.ops) <= 200]
+    ex_cases = [c for c in cases if (c.meta or {}).get("mode", "ex") == "ex" and len(c.ops) <= 200 and all(o[0] in ("u", "l", "c") for o in c.ops)]
     for c in ex_cases:
         c.meta["model"] = True
     return finish(pid, pid + "_replay", ex_cases, viols, "replay of " + path, {"recorded_outputs_reproduced": same})
@@ -447,9 +484,44 @@ def run_C14(rng, tier):
         fc += gg
     run_impl(fc, mode="f64")
     viols += O.c14(f64groups, f64=True)
+    # f64 special values fed as raw bit patterns: signed zeros (0.0 == -0.0 but the bits differ), repeated equal values, the smallest and
+    # largest magnitudes; "bit-exactly" must survive a cache keyed by ==, a sign lost at zero, a flush of tiny values
+    import struct
+    SPECIAL = [0.0, -0.0, 0.0, -0.0, 1.0, -1.0, 1.0, 5e-324, -5e-324, 2.2250738585072014e-308, 1.5, 1.5, -1.5, 1e300, -1e300, 0.25, 1e-17, -1e-17]
+    def bits_tok(x):
+        return "x%016x" % struct.unpack("<Q", struct.pack("<d", x))[0]
+    sgroups, sc = [], []
+    for i in range(24 * k):
+        name = ["Tanh", "Gte", "Lte", "Add", "Sub", "Mul", "Div", "Echo"][i % 8]
+        xs = []
+        while len(xs) < 28:
+            v = rng.choice(SPECIAL)
+            xs.append(v)
+            if rng.chance(0.35):
+                xs.append(-v if v == 0.0 else v)          # a zero followed by the other zero / an exact repeat
+        if name in ("Mul",):
+            xs = [v for v in xs if abs(v) < 1e200]
+        toks = [bits_tok(v) for v in xs]
+        meta = {"regime": "f64-special-values", "view": name, "model": False, "mode": "f64", "role": "parent"}
+        def mk(d, role):
+            return Case(d, [("u", 0, t_) for t_ in toks], dict(meta, role=role, view=d[0]))
+        if name in ("Tanh", "Gte", "Lte"):
+            a = rng.choice([E, ("Mul", E, ("Const", F(0)))])
+            d = (name, a) if name == "Tanh" else (name, rng.choice([F(0), F(1), F(-3, 2)]), a)
+            g = [mk(d, "parent"), mk(a, "a")]
+        elif name == "Echo":
+            g = [mk(E, "parent")]
+        else:
+            b = ("Const", F(2)) if name == "Div" else rng.choice([E, ("Const", F(0)), ("Mul", E, ("Const", F(-1)))])
+            a = E
+            g = [mk((name, a, b), "parent"), mk(a, "a"), mk(b, "b")]
+        sgroups.append(g)
+        sc += g
+    run_impl(sc, mode="f64")
+    viols += O.c14(sgroups, f64=True)
     return finish("C14", "C14", cases, viols,
-                  "combinator over random children, children run stand-alone on the same inputs; non-trivial = at least 3 distinct observations; f64 repeat of half of the groups",
-                  {"f64_cases": len(fc)})
+                  "combinator over random children, children run stand-alone on the same inputs; non-trivial = at least 3 distinct observations; f64 repeat of half of the groups; f64 special values as raw bit patterns (signed zeros in both orders, exact repeats, subnormals, 1e300)",
+                  {"f64_cases": len(fc) + len(sc)})
 
 # ---------------------------------------------------------------------------------- helpers
 def f64_exact(bits):
@@ -683,9 +755,30 @@ def run_C03(rng, tier):
         c2 = Case.simple(d, p2 + s, {"view": name, "regime": "prefix-suffix"})
         pairs.append((c1, c2, K, sl, None))
         cases += [c1, c2]
+    # arbitrarily LONG prefixes: one history has seen more than 2^12 (thorough: 2^16) values before the common suffix, the other almost none;
+    # anything that is rebuilt, re-based or re-summed every so many updates / evictions leaks an old value only there
+    lpairs = []
+    for name in names:
+        if name not in LARGE_OK or name == "Pfe":
+            continue
+        for rep in range(1 if tier == "quick" else 2):
+            d = mk_view(rng, name, n=rng.choice([1, 2, 3, 5, 8]))
+            n = d[1]
+            K = 2 * n if C03_K[name] == "2n" else n + C03_K[name]
+            sl = K + 2 + rng.below(4)
+            L1 = 4100 + rng.below(300) if (tier == "quick" or name not in O1_VIEWS or rep == 0) else 66000 + rng.below(3000)
+            walk = bounded_walk(rng, L1 + sl + 3, grid=4)
+            s_ = walk[L1 + 3:]
+            p1, p2 = walk[:L1], walk[L1:L1 + rng.below(3)]
+            meta = {"view": name, "regime": "long-prefix", "model": False}
+            c1 = Case(d, [("q", 0, x) for x in p1] + [("u", 0, x) for x in s_], dict(meta))
+            c2 = Case(d, [("q", 0, x) for x in p2] + [("u", 0, x) for x in s_], dict(meta))
+            lpairs.append((c1, c2, K, sl, None))
     run_impl(cases)
-    viols = O.c03(pairs)
-    return finish("C03", "C03", cases, viols, "pairs of histories with arbitrary (empty, short, long, huge-valued) different prefixes and a common suffix of length K..K+4; outputs on the suffix from position K on must be equal (exact rationals)")
+    run_impl([c for pr in lpairs for c in pr[:2]], profile="release")
+    viols = O.c03(pairs) + O.c03(lpairs)
+    return finish("C03", "C03", cases, viols, "pairs of histories with arbitrary (empty, short, long, huge-valued) different prefixes and a common suffix of length K..K+4; outputs on the suffix from position K on must be equal (exact rationals); plus, per view, a pair whose prefixes have > 2^12 (thorough: 2^16) resp. < 3 values",
+                  {"long_prefix_pairs": len(lpairs)})
 
 # ---------------------------------------------------------------------------------- C04
 def run_C04(rng, tier):
